@@ -5,14 +5,22 @@
    harness (struct{key, payload int}) the integer e stands for
    {key: e / 10, payload: e % 10} (Go's truncating / and %), a bijection, so Go's
    == on the structs is equality of the codes and the model is run at A = Z for
-   both element types.
+   both element types.  The same holds for the two STRING instances of the
+   harness (ty 2: Heap[string], e stands for the 20-digit decimal string of
+   uint64(e) xor 2^63 — injective and order preserving, built afresh at run time
+   for every use; ty 3: Heap[struct{key string; payload int}] with key = the
+   string of e / 10): Go's == on strings / on structs with a string field
+   compares contents, so it is again equality of the codes, and the string
+   comparators are the comparators below on the codes.  The zero value ("" / the
+   zero struct) is 0 on the wire; the harness reports a zero value returned by a
+   non-empty heap, or a non-zero one by an empty heap, as -777001.
 
    comparator codes:  0  a < b      1  a > b
                       2  a/10 < b/10 (by key; codes with equal key tie)
                       3  a/10 > b/10
 
    input, mode 0 (a history):   0 :: ty :: c0 :: c1 :: ops
-       ty in {0 (int), 1 (struct)}; h0 = NewHeap(c0), h1 = NewHeap(c1), h2 = NewHeap(c1)
+       ty in {0 (int), 1 (struct of ints), 2 (string), 3 (struct with a string key)}; h0 = NewHeap(c0), h1 = NewHeap(c1), h2 = NewHeap(c1)
        THREE heap variables: every operation acts on h0, h1 is the argument of
        Merge/Meld, h2 receives the receiver of the last Merge/Meld — so the result,
        the argument and the receiver all stay alive and are observed again later
@@ -179,7 +187,7 @@ Definition run_end (s : zstate) : list Z :=
   | r => enc_fail r
   end.
 
-Definition valid_ty (ty : Z) : bool := (ty =? 0) || (ty =? 1).
+Definition valid_ty (ty : Z) : bool := (0 <=? ty) && (ty <=? 3).
 
 (* the model's "observation" for the spec-only modes 2 and 3 *)
 Definition not_modelled : list Z := [-777777].
